@@ -1,5 +1,6 @@
 import Driver.Util
 import GqlgenVerif.Model.Complexity
+import GqlgenVerif.Model.ComplexitySwitch
 /-! Line-protocol driver for C14: the complexity walker, its Spec, safeAdd and the gate.
 
 ```
@@ -8,7 +9,13 @@ sa <a> <b>                             ->  safeAdd a b   (regenerated definition
 saspec <a> <b>                         ->  the right-hand side of safeAdd_spec
 maxint                                 ->  maxInt (regenerated definition)
 gate <complexity> <limit>              ->  <execCalls> <code|->
+gencx <objs> <Type> <field>            ->  <entry the modelled switch dispatches to | -> <entry by the documented binding | ->
+gencalc <objs> <entries> <schema> <vars> <doc>
+                                       ->  <walker over the modelled generated switch> <Spec over the documented binding>
 ```
+objs = `Name:reserved:field>key>reserved|…;…` (what `codegen.Data.Objects` holds; key = the Go field name, normalised;
+reserved = 0 | 1); entries = the `ComplexityRoot` table `Type.key=<expr>;…`. The switch model groups the fields with the
+`uniqueFields` **regenerated** from `codegen/complexity.go` (`Gen/UniqueFields.lean`).
 schema  = `Name:k:Impl|Impl;…` (k = o i u x); customs = `Type.field=c:<n>|l:<a>:<b>|a:<arg>:<b>;…`;
 vars = `name=<argv>;…` (argv = i<n> | n | o); doc = comma-separated prefix tokens
 `f,parent,name,ret,nargs,(arg,src,dflt)*,nsels,…` (src = - | L<argv> | V<var>; dflt = - | <argv>),
@@ -110,8 +117,37 @@ def parseDoc (s : String) : Option (List Sel) :=
     | none => none
   | [] => none
 
+def parseObjs (s : String) : Option (List ComplexitySwitch.GObject) :=
+  (items s ";").mapM fun o =>
+    match o.splitOn ":" with
+    | [n, r, fs] => do
+      let fields ← (items fs "|").mapM fun f =>
+        match f.splitOn ">" with
+        | [fn, k, fr] => some ({ name := fn, goName := k, reserved := fr == "1" } : FieldMap.GField)
+        | _ => none
+      pure { name := n, reserved := r == "1", fields := fields }
+    | _ => none
+
+def rootOf (tbl : List ((String × String) × Expr)) : ComplexitySwitch.ComplexityRoot :=
+  fun o k => (tbl.lookup (o, k)).map fun e => e.eval
+
+def showEntry : Option (String × String) → String
+  | some (o, k) => s!"{o}.{k}"
+  | none => "-"
+
 def step (line : String) : String :=
   match line.splitOn " " with
+  | ["gencx", objs, t, f] =>
+    match parseObjs objs with
+    | some os => s!"{showEntry (ComplexitySwitch.dispatch os t f)} {showEntry (ComplexitySwitch.Spec.entryOf os t f)}"
+    | none => "bad-op"
+  | ["gencalc", objs, ents, sch, vs, doc] =>
+    match parseObjs objs, parseCustoms ents, parseVars vs, parseDoc doc with
+    | some os, some tbl, some vars, some op =>
+      let S := parseSchema sch
+      let root := rootOf tbl
+      s!"{calculate S (ComplexitySwitch.switchCustom os root) vars op} {Spec.complexity S (ComplexitySwitch.Spec.boundCustom os root) vars op}"
+    | _, _, _, _ => "bad-op"
   | ["calc", sch, cus, vs, doc] =>
     match parseCustoms cus, parseVars vs, parseDoc doc with
     | some tbl, some vars, some op =>
